@@ -78,6 +78,13 @@ on the shapes of the consumed lists) and NumPy block assignments read entry-wise
 case analysis, or by an induction that relates the generated loop to the model's recursion (proof scripts fixed in its
 TARGETS table; model-only helper lemmas in lean/PersimVerif/Lemmas/SrcBridge*.lean, the Python builtins it uses in
 lean/PersimVerif/Lemmas/SrcLib.lean).  Its conventions are stated in its module docstring and in every generated header.
+
+MATCHING ENGINE (py2lean_matching.py; keys bottleneck_search, wasserstein_assign of FILES; `pre_build` of C01, C02, C06).  What
+`persim.bottleneck` / `persim.wasserstein` do around the augmented matrix -- the preamble, the bisection with the Hopcroft-Karp
+oracle, `linear_sum_assignment` and the sum, the two `matching=True` extractions -- statement by statement, each loop its own
+recursion (the `while` on a fuel), the external solvers as parameters; proved equal to reviewed Lean text of the same shape and
+through it to the hand-written models (Lemmas/SrcBridgeMatching.lean, SrcLibMatching.lean).  It also blanks, in the
+`srcSkeleton(After)_aug_entry` pins of the statement-level targets `bottleneck` / `wasserstein`, what it translates.
 """
 import ast, os, re
 from fractions import Fraction
